@@ -106,7 +106,7 @@ def extend(x, cons):
     return y
 
 
-def one_case(ctx, r, lines, checks, big=False, directed=None, given_modes=None):
+def one_case(ctx, r, lines, checks, big=False, directed=None, given_modes=None, record_modes=None):
     vt, raw = directed or gen_poly(r, big)
     dom = (0, 1) if vt == 'BINARY' else (-1, 1)
     pnorm = norm(raw, vt)
@@ -122,6 +122,23 @@ def one_case(ctx, r, lines, checks, big=False, directed=None, given_modes=None):
     if {t: b for t, b in got.items() if b} != {t: b for t, b in pnorm.items() if b}:
         ctx.fail('property', 'BinaryPolynomial.__init__', f'{vt} term aggregation', f'raw {raw!r}: stored {got!r}, denoted {pnorm!r}', repro=src0 + 'assert {t: F(b) for t, b in poly.items() if b} == {t: b for t, b in P.items() if b}\n')
         return
+    # --- the polynomial argument is a Mapping or an *iterable* of (term, bias) pairs: every other form of the same pairs
+    #     (one-shot iterators, tuple, dict view when the spellings are distinct) must denote the same polynomial
+    forms = [('one-shot iterator', 'iter(raw)'), ('one-shot iterator', '((t, b) for t, b in raw)'), ('one-shot iterator', 'zip([t for t, _ in raw], [b for _, b in raw])'),
+             ('tuple', 'tuple(raw)')]
+    if len({t for t, _ in rawf}) == len(rawf):
+        forms += [('dict', 'dict(raw)'), ('dict view', 'dict(raw).items()')]
+    for cls, expr in r.sample(forms, 2):
+        try:
+            other = BinaryPolynomial(eval(expr, {'raw': rawf}), vt)
+            same = dict(other) == dict(poly) and other.vartype is poly.vartype
+        except Exception as e:  # noqa
+            same, other = False, f'{type(e).__name__}: {e}'
+        ctx.tick(f'poly-form:{cls}')
+        if not same:
+            ctx.fail('property', 'BinaryPolynomial.__init__', f'polynomial given as {cls}', f'raw {raw!r} as {expr}: {other!r}, as a list {dict(poly)!r}',
+                     repro=src0 + f'other = dimod.BinaryPolynomial({expr}, vt)\nassert dict(other) == dict(poly), (dict(other), dict(poly))\n')
+            return
     try:
         reduced, cons = dimod.reduce_binary_polynomial(poly)
     except Exception as e:  # noqa
@@ -192,7 +209,11 @@ def one_case(ctx, r, lines, checks, big=False, directed=None, given_modes=None):
     c = coef(bqm)
     badq = False
     allv = list(bqm.variables)
-    if len(set(prods_q + auxs + pvars)) != len(prods_q) + len(auxs) + len(pvars) or not set(allv) >= set(pvars):
+    if not set(allv) >= set(pvars):
+        badq = True
+        ctx.fail('property', site, 'a variable of the polynomial is missing from the quadratic model', f'{vt} {raw!r}: polynomial variables {pvars!r}, model variables {allv!r}',
+                 repro=srcq[:srcq.index('def en(x)')] + 'assert set(bqm.variables) >= set(vs), (set(vs) - set(bqm.variables))\n')
+    elif len(set(prods_q + auxs + pvars)) != len(prods_q) + len(auxs) + len(pvars):
         badq = True
         cls = 'introduced variable not fresh' + (' (adversarial labels)' if any(isinstance(v, str) and ('*' in v or v.startswith('aux')) for v in pvars) else '')
         ctx.fail('property', site, cls, f'{vt} {raw!r}: products {prods_q!r} auxiliaries {auxs!r} variables {pvars!r}',
@@ -297,6 +318,12 @@ def one_case(ctx, r, lines, checks, big=False, directed=None, given_modes=None):
         hoc_case(ctx, r, vt, raw, rawf, poly, pnorm, pvars, src0)
     if r.random() < (.5 if ctx.quick else .25) and pvars:
         hoc_options_case(ctx, r, vt, raw, rawf, pnorm, pvars, src0, raw_text, lines, checks)
+    if (record_modes or r.random() < (.5 if ctx.quick else .25)) and pvars:
+        for mode in (record_modes or [None]):
+            hoc_record_case(ctx, r, vt, raw, rawf, pnorm, pvars, src0, raw_text, lines, checks, mode=mode)
+    if (record_modes or r.random() < (.35 if ctx.quick else .2)) and cons_q == cons_o:
+        for sgn in ((0, -1) if record_modes else (r.choice([0, -1]),)):
+            strength_nonpos_case(ctx, r, vt, raw, pnorm, pvars, R, cons_o, src0, raw_text, lines, checks, sgn)
 
 
 GEXTRA = ['g', 'h', 7]
@@ -639,6 +666,259 @@ def hoc_options_case(ctx, r, vt, raw, rawf, pnorm, pvars, src0, raw_text, lines,
     checks.append((site + ' vs Red.samplePoly', cls, f'ok {handed} # ' + '/'.join(showrow(*o) for o in out), src, bad))
 
 
+RECORD_MODES = ['ok', 'ok', 'ok', 'ok', 'permuted', 'permuted', 'zero-rows', 'drop-product', 'drop-factor', 'drop-polyvar', 'dup-field', 'direct']
+
+
+def record_child_set(bqm, pvars, dom, mode, nrows, rseed, junk):
+    """the sample set the child returns: rows as in `hoc_rows`, columns in a permuted order (a reduction / polynomial
+    variable dropped in the error modes), junk energies, num_occurrences, an extra vector, an info dict"""
+    import random
+    rr = random.Random(rseed + 1)
+    labels = list(bqm.variables)
+    red = list(bqm.info['reduction'].items())
+    rows = hoc_rows(bqm, dom, 0 if mode == 'zero-rows' else nrows, rseed)
+    if mode != 'ok':
+        rr.shuffle(labels)
+    prods = [d['product'] for _, d in red]
+    factors = [w for (u, v), _ in red for w in (u, v)]
+    used = set(prods) | set(factors)
+    drop = None
+    if mode == 'drop-product' and prods:
+        drop = rr.choice(prods)
+    elif mode == 'drop-factor' and factors:
+        drop = rr.choice(factors)
+    elif mode == 'drop-polyvar':
+        free = [v for v in pvars if v not in used]
+        drop = rr.choice(free or list(pvars))
+    if drop is not None:
+        labels = [v for v in labels if v != drop]
+    arr = np.array([[row[v] for v in labels] for row in rows], dtype=np.int8).reshape(len(rows), len(labels))
+    energies = [rr.randint(-9, 9) for _ in rows] if junk else [float(e) for e in bqm.energies((arr, labels))] if drop is None else [0] * len(rows)
+    occ = [rr.randint(1, 5) for _ in rows]
+    vectors = {}
+    if rr.random() < .5:
+        vectors['tag'] = [rr.randint(0, 99) for _ in rows]
+    if mode == 'dup-field':
+        vectors['penalty_satisfaction'] = [rr.randint(0, 1) for _ in rows]
+    info = rr.choice([{}, {'k': 'v'}, {'reduction': 'old', 'z': 'w'}, {'a': 'b', 'penalty_strength': 'old'}])
+    ss = dimod.SampleSet.from_samples((arr, labels), energy=energies, vartype=bqm.vartype, info=dict(info), num_occurrences=occ,
+                                      sort_labels=False, **vectors)
+    return ss, labels, rows, dict(info)
+
+
+class RecordChild(dimod.Sampler):
+    parameters = {}
+    properties = {}
+
+    def __init__(self, make):
+        self.make = make; self.bqm = None; self.out = None
+
+    def sample(self, bqm, **kw):
+        self.bqm = bqm
+        self.out = self.make(bqm)
+        return self.out[0]
+
+
+def hoc_record_case(ctx, r, vt, raw, rawf, pnorm, pvars, src0, raw_text, lines, checks, mode=None):
+    """the WHOLE sample set `HigherOrderComposite.sample_poly` / `polymorph_response` returns for a child sample set with
+    permuted columns, junk energies, num_occurrences, extra vectors and info: variables and their order, records in the
+    child's order, energies, penalty_satisfaction, vectors carried over, field names, info, vartype; and the exceptions
+    for responses that lack a variable or already have a `penalty_satisfaction` field"""
+    import inspect
+    from dimod.reference.composites.higherordercomposites import polymorph_response
+    site = 'HigherOrderComposite.sample_poly'
+    dom = (0, 1) if vt == 'BINARY' else (-1, 1)
+    mode = mode or r.choice(RECORD_MODES)
+    direct = mode == 'direct'
+    strength = r.choice([F(1, 2), F(1), F(2), F(3), F(1), F(2), F(0), F(-1)])
+    keep = r.random() < .5; discard = r.random() < .5
+    nrows = r.randint(0, 6); rseed = r.randrange(2 ** 31); junk = r.random() < .6
+    cls = f"record: {mode} keep={int(keep)} discard={int(discard)}"
+    # entry point: sample_poly, or sample_hising (SPIN) / sample_hubo (BINARY) with the same terms as h, J / H dicts
+    entry = 'poly' if direct or r.random() < .6 else ('hising' if vt == 'SPIN' else 'hubo')
+    h, J, H = {}, {}, {}
+    if entry == 'hubo':
+        for t, b in rawf:
+            H[t] = H.get(t, 0.0) + b
+        raw_text = ';'.join('&'.join(lab(v) for v in t) + '=' + rat(b) for t, b in H.items()) or '-'
+    elif entry == 'hising':
+        for t, b in rawf:
+            if len(t) == 1:
+                h[t[0]] = h.get(t[0], 0.0) + b
+            else:
+                J[t] = J.get(t, 0.0) + b
+        raw_text = ';'.join([lab(v) + '=' + rat(b) for v, b in h.items()] + ['&'.join(lab(v) for v in t) + '=' + rat(b) for t, b in J.items()]) or '-'
+    src = (src0 + 'import random, numpy as np\nfrom dimod.reference.composites.higherordercomposites import polymorph_response\n'
+           + inspect.getsource(hoc_rows) + inspect.getsource(record_child_set)
+           + f'strength, keep, discard, mode, nrows, rseed, junk, direct = {float(strength)!r}, {keep}, {discard}, {mode!r}, {nrows}, {rseed}, {junk}, {direct}\n'
+           'class Child(dimod.Sampler):\n'
+           '    parameters = {}; properties = {}\n'
+           '    def sample(self, bqm, **kw):\n'
+           '        self.bqm = bqm; self.out = record_child_set(bqm, vs, dom, mode, nrows, rseed, junk); return self.out[0]\n'
+           'child = Child()\n'
+           'if direct:\n'
+           '    bqm = dimod.make_quadratic(poly, strength, vt); resp = child.sample(bqm)\n'
+           '    ss = polymorph_response(resp, poly, bqm, keep_penalty_variables=keep, discard_unsatisfied=discard)\n'
+           f'entry, h, J, H = {entry!r}, {h!r}, {J!r}, {H!r}\n'
+           'kw = dict(penalty_strength=strength, keep_penalty_variables=keep, discard_unsatisfied=discard)\n'
+           'if not direct:\n'
+           '    sampler = dimod.HigherOrderComposite(child)\n'
+           '    ss = sampler.sample_hising(h, J, **kw) if entry == "hising" else sampler.sample_hubo(H, **kw) if entry == "hubo" else sampler.sample_poly(poly, **kw)\n'
+           'cs, labels, rows, info0 = child.out\n'
+           'red = child.bqm.info["reduction"]\n'
+           'ok = lambda row: all(row[u] * row[v] == row[d["product"]] for (u, v), d in red.items())\n'
+           'idx = [i for i, row in enumerate(rows) if ok(row) or not discard]\n'
+           'rec = ss.record\n'
+           'assert len(rec) == len(idx), ("records kept", len(rec), len(idx))\n'
+           'assert (list(ss.variables) == labels) if keep else (sorted(map(repr, ss.variables)) == sorted(map(repr, vs))), ("variables", list(ss.variables))\n'
+           'others = [n for n in cs.record.dtype.names if n not in ("sample", "energy")]\n'
+           'assert list(rec.dtype.names) == ["sample", "energy", "penalty_satisfaction"] + others, rec.dtype.names\n'
+           'for k, i in enumerate(idx):\n'
+           '    row = rows[i]\n'
+           '    assert dict(zip(ss.variables, map(int, rec.sample[k]))) == {v: row[v] for v in ss.variables}, ("sample", k)\n'
+           '    assert F(float(rec.energy[k])) == pe(P, row), ("energy", k, rec.energy[k], pe(P, row))\n'
+           '    assert int(rec.penalty_satisfaction[k]) == (1 if discard else int(ok(row))), ("penalty_satisfaction", k)\n'
+           '    for n in others: assert rec[n][k] == cs.record[n][i], ("vector", n, k)\n'
+           'want = dict(info0); want["reduction"] = red\n'
+           'if not direct: want["penalty_strength"] = strength\n'
+           'assert dict(ss.info) == want, ("info", ss.info)\n'
+           'assert ss.vartype is cs.vartype\n')
+    child = RecordChild(lambda bqm: record_child_set(bqm, pvars, dom, mode, nrows, rseed, junk))
+    poly = BinaryPolynomial(rawf, vt)
+    err = None
+    ss = None
+    try:
+        with warnings.catch_warnings():
+            warnings.simplefilter('ignore')
+            if direct:
+                bqm = dimod.make_quadratic(poly, float(strength), vt)
+                resp = child.sample(bqm)
+                ss = polymorph_response(resp, poly, bqm, keep_penalty_variables=keep, discard_unsatisfied=discard)
+            else:
+                sampler = dimod.HigherOrderComposite(child)
+                kw = dict(penalty_strength=float(strength), keep_penalty_variables=keep, discard_unsatisfied=discard)
+                ss = (sampler.sample_hising(h, J, **kw) if entry == 'hising' else sampler.sample_hubo(H, **kw) if entry == 'hubo'
+                      else sampler.sample_poly(poly, **kw))
+    except Exception as e:  # noqa
+        err = e
+    if child.out is None:
+        ctx.fail('property', site, cls + ': raises', f'{type(err).__name__}: {err} on {raw!r} before the child was called', repro=src)
+        return
+    cs, labels, rows, info0 = child.out
+    red = child.bqm.info['reduction']
+    cons_q = [((u, v), d['product']) for (u, v), d in red.items()]
+    names = [n for n in cs.record.dtype.names if n not in ('sample', 'energy')]
+    needed = {w for (u, v), p in cons_q for w in (u, v, p)} | set(pvars)
+    wellformed = needed <= set(labels) and 'penalty_satisfaction' not in names
+    ctx.tick(f'hoc:record:{mode}:keep={int(keep)}:discard={int(discard)}')
+    ctx.tick(f'hoc:entry:sample_{entry}' if not direct else 'hoc:entry:polymorph_response')
+    if strength <= 0:
+        ctx.tick('hoc:record:penalty_strength:zero' if strength == 0 else 'hoc:record:penalty_strength:negative')
+    ctx.case(('hocr', vt, entry, raw_text, strength, keep, discard, mode, nrows, rseed, junk), nontrivial=bool(cons_q) and len(rows) > 0 or mode != 'ok')
+    ok = lambda row: all(row[u] * row[v] == row[p] for (u, v), p in cons_q)   # noqa: E731
+    bad = False
+    if err is not None:
+        ctx.tick(f'hoc:record:raises:{type(err).__name__}')
+        if wellformed:
+            ctx.fail('property', site, 'whole sample set: raises on a well-formed response', f'{raw!r} {cls}: {type(err).__name__}: {err}; child variables {labels!r} fields {names!r}', repro=src)
+            return
+        want = 'err ' + type(err).__name__ + (':dup' if 'more than once' in str(err) else '')
+        order = sorted(pvars, key=repr)
+    else:
+        idx = [i for i, row in enumerate(rows) if ok(row) or not discard]
+        rec = ss.record
+
+        def fail(what, detail):
+            ctx.fail('property', site, 'whole sample set: ' + what, f'{raw!r} {cls}: {detail}; child variables {labels!r}, rows {rows!r}, reduction {cons_q!r}', repro=src)
+        if wellformed:
+            outv = list(ss.variables)
+            if len(rec) != len(idx):
+                bad = True; fail('records kept', f'{len(rows)} child records, {len(idx)} to keep, {len(rec)} returned')
+            elif (outv != labels) if keep else (len(outv) != len(pvars) or set(outv) != set(pvars)):
+                bad = True; fail('variables', f'returned variables {outv!r}, polynomial variables {pvars!r}')
+            elif list(rec.dtype.names) != ['sample', 'energy', 'penalty_satisfaction'] + names:
+                bad = True; fail('field names', f'fields {rec.dtype.names!r}, child fields {cs.record.dtype.names!r}')
+            else:
+                for k, i in enumerate(idx):
+                    row = rows[i]
+                    if dict(zip(outv, map(int, rec.sample[k]))) != {v: row[v] for v in outv}:
+                        bad = True; fail('record order / sample values', f'record {k} is {dict(zip(outv, map(int, rec.sample[k])))!r}, child record {i} is {row!r}'); break
+                    if fr(rec.energy[k]) != pe(pnorm, row):
+                        bad = True; fail('energy of a returned record', f'record {k} = child record {i} {row!r}: energy {rec.energy[k]}, polynomial {pe(pnorm, row)}'); break
+                    if int(rec.penalty_satisfaction[k]) != (1 if discard else int(ok(row))):
+                        bad = True; fail('penalty_satisfaction', f'record {k} = child record {i} {row!r}: flag {rec.penalty_satisfaction[k]}, all products hold: {ok(row)}'); break
+                    wrongv = [n for n in names if rec[n][k] != cs.record[n][i]]
+                    if wrongv:
+                        bad = True; fail('vectors carried over', f'record {k} = child record {i}: field {wrongv[0]} is {rec[wrongv[0]][k]}, the child had {cs.record[wrongv[0]][i]}'); break
+            want_info = dict(info0); want_info['reduction'] = red
+            if not direct:
+                want_info['penalty_strength'] = float(strength)
+            if not bad and (dict(ss.info) != want_info or ss.vartype is not cs.vartype):
+                bad = True; fail('info / vartype', f'info {dict(ss.info)!r} expected {want_info!r}; vartype {ss.vartype} child {cs.vartype}')
+        order = list(ss.variables) if not keep else sorted(pvars, key=repr)
+
+        def ival(v):
+            return 'o.' + v.encode().hex() if isinstance(v, str) else 'r.' + ','.join(f'{lab(a)}~{lab(b)}>{lab(d["product"])}' for (a, b), d in v.items()) if isinstance(v, dict) else 's.' + rat(v)
+        want = ('ok ' + (','.join(lab(v) for v in ss.variables) or '-') + '|' + ','.join(n.encode().hex() for n in rec.dtype.names) + '|' + str(rec.dtype['penalty_satisfaction'])
+                + '|' + ss.vartype.name + '|' + '&'.join(k.encode().hex() + '=' + ival(v) for k, v in ss.info.items()) + '|'
+                + ';'.join(f"{','.join(rat(int(x)) for x in rec.sample[k])}:{rat(fr(rec.energy[k]))}:{int(rec.penalty_satisfaction[k])}:{','.join(rat(int(rec[n][k])) for n in names)}" for k in range(len(rec))))
+    ch = ','.join(f'{lab(u)}~{lab(v)}>{lab(p)}' for (u, v), p in cons_q) or '-'
+    info_txt = '&'.join(k.encode().hex() + '=' + v.encode().hex() for k, v in info0.items()) or '-'
+    rows_txt = ';'.join(f"{','.join(rat(int(x)) for x in cs.record.sample[i])}:{rat(fr(cs.record.energy[i]))}:{','.join(rat(int(cs.record[n][i])) for n in names)}" for i in range(len(rows))) or '-'
+    lines.append(f"hocr {vt} {raw_text} {','.join(lab(v) for v in order) or '-'} {ch} {'-' if direct else rat(strength)} {int(keep)} {int(discard)} {cs.vartype.name} "
+                 f"{','.join(lab(v) for v in labels) or '-'} {','.join(n.encode().hex() for n in names) or '-'} {info_txt} {rows_txt}")
+    checks.append((site + ' vs Red.samplePolyRecord / Red.polymorphRecord', cls, want, src, bad))
+
+
+def strength_nonpos_case(ctx, r, vt, raw, pnorm, pvars, R, cons_o, src0, raw_text, lines, checks, sgn):
+    """`strength <= 0` is accepted by `make_quadratic` (no validation; the docstring only warns about insufficient strength):
+    recorded precondition.  Checked: exactly the proved behaviour — strength 0: the model equals the reduced polynomial
+    everywhere; strength < 0: the penalty is <= 0 everywhere, <= strength on inconsistent assignments (any auxiliaries),
+    and 0 for suitable auxiliaries on consistent ones.  Deviations are model/code disagreements, not property failures."""
+    site = 'make_quadratic'
+    dom = (0, 1) if vt == 'BINARY' else (-1, 1)
+    strength = F(0) if sgn == 0 else r.choice([F(-1), F(-1, 2), F(-2)])
+    cls = 'strength == 0' if sgn == 0 else 'strength < 0'
+    srcq = (src0 + f'strength = {float(strength)!r}\nbqm = dimod.make_quadratic(poly, strength, vt)\n'
+            'def en(x): return F(bqm.offset) + sum(F(bqm.get_linear(v))*x[v] for v in bqm.variables) + sum(F(q)*x[u]*x[v] for u, v, q in bqm.iter_quadratic())\n'
+            'info = bqm.info["reduction"]\nprods = [d["product"] for d in info.values()]; auxs = [d["auxiliary"] for d in info.values() if "auxiliary" in d]\n'
+            'red, cons = dimod.reduce_binary_polynomial(poly)\nR = {}\nfor tm, b in red: R[tm] = R.get(tm, 0) + F(b)\n'
+            'allp = vs + prods\nfor t in itertools.product(dom, repeat=len(allp)):\n    x = dict(zip(allp, t))\n'
+            '    ok = all(x[d["product"]] == x[u]*x[v] for (u, v), d in info.items())\n'
+            '    pens = [en({**x, **dict(zip(auxs, a))}) - pe(R, x) for a in itertools.product(dom, repeat=len(auxs))]\n'
+            '    assert max(pens) <= 0 and (max(pens) == 0 if ok else max(pens) <= F(strength)), (x, pens)\n')
+    try:
+        bqm = dimod.make_quadratic(BinaryPolynomial([(t, float(b)) for t, b in raw], vt), float(strength), vt)
+    except Exception as e:  # noqa
+        ctx.fail('correspondence', site, cls + ': raises', f'{type(e).__name__}: {e} on {raw!r} (the model accepts any strength, as the code did)', repro=srcq)
+        return
+    info = bqm.info['reduction']
+    cons_q = [((u, v), d['product']) for (u, v), d in info.items()]
+    auxs = [d['auxiliary'] for d in info.values() if 'auxiliary' in d]
+    prods_q = [p for _, p in cons_q]
+    ctx.tick('strength:zero' if sgn == 0 else 'strength:negative')
+    ctx.case(('mq0', vt, strength, raw_text), nontrivial=bool(cons_q))
+    c = coef(bqm)
+    bad = False
+    if cons_q == cons_o and len(pvars) + len(prods_q) + len(auxs) <= 11:
+        for tv in itertools.product(dom, repeat=len(pvars) + len(prods_q)):
+            x = dict(zip(pvars + prods_q, tv))
+            consistent = all(x[p] == x[u] * x[v] for (u, v), p in cons_q)
+            er = pe(R, x)
+            pens = [energy(c, {**x, **dict(zip(auxs, a))}) - er for a in itertools.product(dom, repeat=len(auxs))]
+            if sgn == 0:
+                wrong = any(p != 0 for p in pens)
+            else:
+                wrong = max(pens) > 0 or (max(pens) != 0 if consistent else max(pens) > strength)
+            if wrong:
+                bad = True
+                ctx.fail('correspondence', site, cls + ': penalty', f'{raw!r} strength {strength}: at {x!r} the penalties over the auxiliaries are {sorted(set(pens))!r} (products consistent: {consistent})', repro=srcq)
+                break
+        ctx.tick(('strength:zero' if sgn == 0 else 'strength:negative') + ':enumerated')
+    lines.append(f'mq {vt} {rat(strength)} {raw_text} ' + (','.join(f'{lab(u)}~{lab(v)}>{lab(p)}' for (u, v), p in cons_q) or '-'))
+    checks.append((site + ' vs Red.makeQuadratic', cls, 'ok ' + canon_bqm(bqm) + '|' + ','.join(lab(a) for a in auxs), srcq, bad))
+
+
 def hoc_case(ctx, r, vt, raw, rawf, poly, pnorm, pvars, src0):
     polymorph_corr(ctx, r, vt, raw, poly)
     keep = r.random() < .5
@@ -724,6 +1004,8 @@ def run(ctx):
                 'inside terms, repeated monomials, zero biases, constants, occasionally labels that look like generated product/auxiliary names; a case = one call of '
                 'reduce_binary_polynomial / make_quadratic / make_quadratic_cqm / HigherOrderComposite.sample_poly; make_quadratic also onto a given non-empty bqm= of the same / the other '
                 'vartype with and without vartype=, make_quadratic_cqm onto a given cqm= with its own objective, constraint and variables of other types; every consistent assignment is enumerated; '
+                'the whole sample set returned by HigherOrderComposite / polymorph_response for child sample sets with permuted columns, junk energies, num_occurrences, extra vectors, info, '
+                'no rows, missing variables, a pre-existing penalty_satisfaction field; make_quadratic with strength 0 and < 0 (recorded precondition: exactly the proved behaviour); '
                 'non-trivial = the polynomial has degree > 2 (a product variable is introduced)')
     lines, checks = [], []
     ctx._hoc_lines, ctx._hoc_checks = [], []
@@ -739,6 +1021,12 @@ def run(ctx):
                  given_modes=[('same', True), ('other', True), ('same', False)])
     # the given model already has variables named like every product / auxiliary the reduction could create (D38)
     one_case(ctx, r, lines, checks, directed=('SPIN', [((0, 1, 2), F(-2)), ((0, 1, 3), F(1))]), given_modes=[('same', True, 'adversarial')])
+    # the whole returned sample set: every mode of the child's response (permuted columns, no rows, a missing reduction /
+    # polynomial variable, a pre-existing penalty_satisfaction field, polymorph_response called directly), strength 0 and < 0
+    for vt in ('BINARY', 'SPIN'):
+        one_case(ctx, r, lines, checks, directed=(vt, [((0, 1, 2, 'a'), F(-2)), ((0, 1, 3), F(1)), (('b',), F(3, 4)), ((2, 3), F(1, 2))]),
+                 record_modes=['ok', 'permuted', 'zero-rows', 'drop-product', 'drop-factor', 'drop-polyvar', 'dup-field', 'direct'])
+    one_case(ctx, r, lines, checks, directed=('SPIN', [((0, 1), F(-2)), ((0,), F(1))]), record_modes=['ok', 'zero-rows', 'drop-polyvar', 'direct'])
     for _ in range(ctx.scale(230, 2200)):
         one_case(ctx, r, lines, checks)
     if not ctx.quick:
